@@ -27,11 +27,11 @@ CLAIMS["C30"] = dict(
 )
 PROPS["C28"] = dict(
     functions=["revm::inspector::handler_register::inspector_instruction (the step / step_end wrapper put around every instruction)",
-               "the closures inspector_handle_register installs for execution.call, create, eofcreate, insert_call_outcome, insert_create_outcome, insert_eofcreate_outcome: every path",
+               "the closures inspector_handle_register installs for execution.call, create, eofcreate, insert_call_outcome, insert_create_outcome, insert_eofcreate_outcome, last_frame_return: every path",
                "revm::inspectors::GasInspector::{initialize_interp, step, step_end, call_end, create_end} (crates/revm/src/inspector/gas.rs): every path"],
-    bounds="every path of the seven bodies x (inspector answered the call/create itself or not) x (step left a result or not); the instruction pointer at entry is a free variable",
+    bounds="every path of the eight bodies x (kind of the frame result) x (inspector answered the call/create itself or not) x (step left a result or not); the instruction pointer at entry is a free variable",
     outside="the whole-transaction statement (result, gas, logs, state equal with and without inspector): only that each wrapper hands control on unchanged is decided; the LOG and "
-            "SELFDESTRUCT wrappers' extra notifications, last_frame_return (matches on the frame kind; its balance is under C29), the body of TracerEip3155 beyond its delegation to "
+            "SELFDESTRUCT wrappers' extra notifications, the body of TracerEip3155 beyond its delegation to "
             "GasInspector (formatting, output), NoOpInspector (no code), the table update mechanics of update_all / update_boxed",
     assumptions=_WRAP_ASSUME + ["`observing` = Inspector::call/create/eofcreate answer None, the *_end hooks return the outcome they were given, step leaves instruction_result at Continue: "
                                "under these the decided facts make every wrapper the identity around the wrapped handler"],
